@@ -59,7 +59,7 @@ func tierFor(prop, tier string) tierCfg {
 	case "C02", "C13":
 		q.runs, t.runs = 100000, 3000000
 	case "C11":
-		q.runs, t.runs = 120000, 3000000
+		q.runs, t.runs = 60000, 1500000
 	}
 	if v, ok := tiers[prop]; ok {
 		q, t = v[0], v[1]
